@@ -22,7 +22,7 @@ ASSUMPTIONS = ['generic-group model of sx/algebra.py; SHA-256 uninterpreted; no 
 EXPLANATION = ('AMHL.setup / setup_for / check_setup / verify_lock_key / release are executed from the real source over the group-algebra stubs for '
                'a symbolic seed: hop i tweak point = (y_0 + ... + y_i)*G, every view validates, the final key opens the last lock, and release '
                'applied right to left yields at every hop the scalar whose point is that hop\'s lock; a key of another hop does not open it')
-MUST_REACH = ['setup_ok', 'cascade_ok', 'tools_ok', 'tools_noseed_ok']
+MUST_REACH = ['setup_ok', 'cascade_ok', 'tools_ok', 'tools_noseed_ok', 'tools_refunds_ok']
 
 
 def _setup(c):
@@ -204,6 +204,56 @@ def r_tools_noseed(inputs, params, obligation):
     return {'reproduced': bool(bad), 'bad': bad[:4]}
 
 
+def h_tools_refunds(c, pkg, n, refunds):
+    """setup_amhl with a partial refund map: the hops listed get the PTLC for *their own* key and refund key, every other hop its own
+    signature lock; compared with the locks the builders give for that hop alone"""
+    T_, F = pkg.tools, pkg.functions
+    seed = _setup(c)
+    stubs.CONFIG.log2_max_bits = 48
+    stubs.CONFIG.clock = lambda: 1000
+    with algebra.XorShortcut(pkg):
+        import nacl.signing as _ns
+        pubs = [bytes(_ns.SigningKey(bytes([i + 1]) * 32).verify_key) for i in range(n)]
+        rks = {i: bytes(_ns.SigningKey(bytes([0x40 + i]) * 32).verify_key) for i in refunds}
+        for pk in pubs + list(rks.values()):
+            algebra.mark_point(pk)
+        res = T_.setup_amhl(seed, pubs, '00', {pubs[i]: rks[i] for i in refunds}, 600)
+        for i in range(n):
+            entry = res[pubs[i]]
+            Ti = entry[2]
+            own_adapter, own_sig = T_.make_adapter_locks_pub(pubs[i], Ti, '00')
+            c.check('hop_adapter_lock_is_for_its_own_key_and_point', len(entry[0].bytes) == len(own_adapter.bytes) and
+                    bytes_eq(entry[0].bytes, own_adapter.bytes), hop=i)
+            if i in refunds:
+                want = T_.make_ptlc_lock(pubs[i], rks[i], timeout=600, sigflags='00')
+            else:
+                want = own_sig
+            c.check('hop_lock_is_for_its_own_key', len(entry[1].bytes) == len(want.bytes) and bytes_eq(entry[1].bytes, want.bytes),
+                    hop=i, refund=(i in refunds))
+    c.reach('tools_refunds_ok')
+
+
+def r_tools_refunds(inputs, params, obligation):
+    import tapescript.tools as RT
+    import tapescript.functions as RF
+    from checks.common import pinned_clock
+    n, refunds = params['n'], params['refunds']
+    pubs = [RF.derive_point_from_scalar(RF.derive_key_from_seed(bytes([i + 1]) * 32)) for i in range(n)]
+    rks = {i: RF.derive_point_from_scalar(RF.derive_key_from_seed(bytes([0x40 + i]) * 32)) for i in refunds}
+    bad = []
+    with pinned_clock(1000):
+        res = RT.setup_amhl(inputs.get('seed', b'seed'), pubs, '00', {pubs[i]: rks[i] for i in refunds}, 600)
+        for i in range(n):
+            e = res[pubs[i]]
+            a, s_ = RT.make_adapter_locks_pub(pubs[i], e[2], '00')
+            want = RT.make_ptlc_lock(pubs[i], rks[i], timeout=600, sigflags='00') if i in refunds else s_
+            if e[0].bytes != a.bytes:
+                bad.append(('adapter_lock', i))
+            if e[1].bytes != want.bytes:
+                bad.append(('lock', i))
+    return {'reproduced': bool(bad), 'bad': bad[:4]}
+
+
 # ------------------------------------------------------------------------------ concrete replay (real libsodium)
 def r_amhl(inputs, params, obligation):
     import tapescript
@@ -278,6 +328,9 @@ HARNESSES = [
                 signature=_sig),
     HarnessSpec('tools', h_tools, lambda t: [{'n': n} for n in ((2,) if t == 'quick' else (2, 3))], replay=r_amhl, signature=_sig,
                 fallback=_fallback),
+    HarnessSpec('tools_refunds', h_tools_refunds, lambda t: [{'n': 3, 'refunds': r} for r in ([], [0], [1], [2], [0, 2], [0, 1, 2])] +
+                ([{'n': 4, 'refunds': r} for r in ([0], [1, 2], [0, 3])] if t != 'quick' else []), replay=r_tools_refunds, signature=_sig,
+                fallback=lambda params, rng: {'seed': rng.randbytes(32)}),
     HarnessSpec('tools_noseed', h_tools_noseed, lambda t: [{'n': n} for n in ((2, 3) if t == 'quick' else (2, 3, 4))], replay=r_tools_noseed,
                 signature=_sig, fallback=lambda params, rng: {}),
 ]
